@@ -230,8 +230,9 @@ def adapt(kind, ncomp, explicit, has_type, twin_first=False, second=False):
                 kw = {}
                 if version is not None:
                     kw['version'] = version
+                typ = 'time-based' if has_type in (True, False) else has_type    # the type the stub announces (if any) / the twin has
                 if has_type:
-                    kw['typ'] = 'time-based'
+                    kw['typ'] = typ
                 p = None
                 if twin_first:
                     # a current-version simulator (class of the same name) is started before the one under test
@@ -254,11 +255,11 @@ def adapt(kind, ncomp, explicit, has_type, twin_first=False, second=False):
                 # time_resolution only if init can take it
                 eng.check(sx.calls[0][1] == compliant, 'C15.time_resolution',
                           f'time_resolution passed={sx.calls[0][1]} but signatures compliant={compliant}: {desc}', {'fp': fp})
-                eng.check(w.sims['X'].type == 'time-based', 'C15.type', f'type is {w.sims["X"].type}: {desc}', {'fp': fp})
+                eng.check(w.sims['X'].type == typ, 'C15.type', f'type is {w.sims["X"].type}, announced {typ if has_type else "none (default time-based)"}: {desc}', {'fp': fp})
                 # a current-version twin in the same scenario, both fed by a producer
                 if p is None:
                     p = w.start('T', sim_id='P', version='3.0', typ='time-based')
-                t = w.start('T', sim_id='T', version='3.0', typ='time-based')
+                t = w.start('T', sim_id='T', version='3.0', typ=typ)
                 pe, xe, te = p.M(), x.M(), t.M()
                 w.connect(pe, xe, ('o', 'i'))
                 w.connect(pe, te, ('o', 'i'))
@@ -284,6 +285,11 @@ def adapt(kind, ncomp, explicit, has_type, twin_first=False, second=False):
                 sched_t = [(c[2], {'e': {'i': {k: v for k, v in c[3]['e']['i'].items() if k.startswith('P.')}}}) for c in steps_t]
                 eng.check(sched_x == sched_t, 'C15.same', f'stub saw {sched_x} but the current-version twin saw {sched_t}: {desc}', {'fp': fp})
                 eng.check(len(steps_x) == 3, 'C15.same', f'stub stepped {len(steps_x)} times: {desc}', {'fp': fp})
+                if typ != 'time-based':
+                    # event-based / hybrid stubs: X's output is an event for the twin (delivered once, at the step it is due)
+                    seen = [c[3]['e']['i'].get('X.e') for c in steps_t]
+                    eng.check(seen == ['init', 'X@0', 'X@1'], 'C15.same', f'twin ({typ}) received {seen} from the stub: {desc}', {'fp': fp})
+                    return ('accepted', {'nontrivial': True})
                 # and X's output reached T like any other simulator's
                 seen = [c[3]['e']['i'].get('X.e') for c in steps_t]
                 eng.check(seen == ['init', 'X@0', 'X@1'], 'C15.same', f'twin received {seen} from the stub: {desc}', {'fp': fp})
@@ -302,6 +308,10 @@ def jobs(tier):
     for kind in KINDS:
         for ncomp in (0, 1, 2, 3):
             for explicit in ('none', 'same', 'other1', 'other2') + (() if q else ('other3',)):
+                for has_type in ('event-based', 'hybrid'):
+                    if explicit in ('none', 'same') or not q:
+                        out.append({'id': f'adapt|{kind}|n{ncomp}|{explicit}|type={has_type}', 'harness': 'vk.kernels.c15:adapt',
+                                    'params': {'kind': kind, 'ncomp': ncomp, 'explicit': explicit, 'has_type': has_type}, 'budget_s': 200})
                 for has_type in (True, False):
                     out.append({'id': f'adapt|{kind}|n{ncomp}|{explicit}|type={int(has_type)}', 'harness': 'vk.kernels.c15:adapt',
                                 'params': {'kind': kind, 'ncomp': ncomp, 'explicit': explicit, 'has_type': has_type}, 'budget_s': 200})
